@@ -574,6 +574,16 @@ func (env *specEnv) call(e *ast.CallExpr) Value {
 				return Value{T: types.Typ[types.Bool], L: []Term{Implies(a, b)}}
 			case "forall__", "exists__":
 				return env.quantifier(id.Name == "forall__", e.Args[0].(*ast.FuncLit))
+			case "loophead":
+				// loophead(e): e in the state at the head of the current iteration of the
+				// innermost enclosing loop (heap and locals as they were there)
+				if env.st.HeadSt == nil {
+					unsup("loophead() outside a loop (or where paths of different loops meet)")
+				}
+				n := *env
+				n.st = env.st.HeadSt
+				n.localSt = env.st.HeadSt
+				return n.eval(e.Args[0])
 			case "old":
 				if env.old == nil {
 					unsup("old() where no pre-state is defined")
